@@ -1,11 +1,42 @@
 import TempestVerif.Model.Pipeline
+import TempestVerif.Lemmas.ScReal
+import TempestVerif.Lemmas.MIS
+import TempestVerif.Lemmas.PipelineShift
+import TempestVerif.Props.C04
+import TempestVerif.Props.C05
+import TempestVerif.Props.C06
 import Mathlib.Algebra.BigOperators.Field
 import Mathlib.Tactic
 /-
-  C01 — weighted posterior samples estimate posterior expectations consistently (PARTIAL).
-  (placeholder header; theorems follow)
+  C01 — weighted posterior samples estimate posterior expectations consistently.      **PARTIAL**
+
+  The statement is about the sampling distribution of an adaptive finite-particle estimator on continuous targets.
+  What is proved here is its exact-arithmetic skeleton, on a finite state space `Ω` (prior mass `p`, likelihood `L`,
+  `γ_β = p·L^β`, `Z_β = Σ γ_β`, `π_β = γ_β/Z_β`; definitions in `Lemmas/MIS.lean`) and on `Model.Pipeline`:
+
+    C01_mis_identity, C01_mis_unbiased, C01_mean_weight_is_Z, C01_mis_unbiased_boundary
+        balance-heuristic identity: with batch t distributed as π_{β_t} and exact recorded normalisers, the
+        size-weighted mean of f·w over the batches is Σ γ_β f  (f = 1: the mean unnormalised weight is Z_β)
+    C01_weight_bridge       exp(specRaw h β (log L x)) — the log-weight formula proved of the code's model in C04 —
+                            IS that linear-space weight when z_t = log Z_{β_t}
+    C01_support, C01_first_batch_beta_zero, C01_run_first_batch_beta_zero
+        the identity's positivity hypothesis follows from one β = 0 batch, and every run's first batch has β = 0
+    C01_kernel_invariance   detailed balance + stochastic rows ⇒ invariance (what C03 delivers for the mutation)
+    C01_resample_unbiased (+ _syst, _mult)   expected empirical measure after resampling = weighted empirical measure
+    C01_meanfield_step, C01_meanfield_fixed  the infinite-particle recursion keeps every batch law exactly π_{β_t} and
+                            every recorded normaliser exactly Z_{β_t}, for ANY temperature schedule
+    C01_pipeline_same_temperature, C01_commit_appends_one
+        in `Model.Pipeline.iterate` weights, resampling, every accept/reject step and the committed (β, logz) belong
+        to ONE β; exactly one batch is appended, earlier batches are untouched
+
+  NOT a theorem (named, not proved): a rate for the deviation of the finite-N pipeline from the mean-field recursion
+  (self-normalisation ratio, estimated normalisers z_t, data-dependent β) — the statement's "finite-particle allowance
+  that shrinks as the particle count grows" — nor anything about continuous state spaces or floating point.
 -/
 namespace Props.C01
+open Lemmas.MIS Model.Pipeline Model.Weights Model.Reweight
+
+/-! ### balance-heuristic identity -/
 
 /-- balance-heuristic identity on a finite space: with batch `t` drawn from `q t` (`n t` draws) and weights
     `f·g / Σ_s n_s q_s`, the summed expectation of the weighted test function is exactly `Σ_x f x · g x` -/
@@ -18,5 +49,359 @@ theorem C01_mis_identity {Ω T : Type} [Fintype Ω] [Fintype T] (n : T → ℝ) 
   have : ∀ t, n t * (q t x * (f x * g x / ∑ s, n s * q s x))
       = (n t * q t x) * (f x * g x / ∑ s, n s * q s x) := by intro t; ring
   simp_rw [this, ← Finset.sum_mul]; field_simp
+
+section mis
+variable {Ω T : Type} [Fintype Ω] [Fintype T]
+
+/-- **the weighted pool is unbiased for the unnormalised target** (positive likelihood): batches `t` of sizes `n t`
+    with laws `π_{β_t}`, weight `w(x) = L(x)^β / Σ_t (n_t/N) L(x)^{β_t}/Z_{β_t}`:
+    `Σ_t (n_t/N) E_{π_{β_t}}[f·w] = Σ_x γ_β(x) f(x)` for every test function `f` and every target β -/
+theorem C01_mis_unbiased (p L : Ω → ℝ) (n bt : T → ℝ) (β : ℝ) (f : Ω → ℝ)
+    (hp : ∀ x, 0 ≤ p x) (hp1 : ∃ x, 0 < p x) (hL : ∀ x, 0 < L x) (hn : ∀ t, 0 ≤ n t) (hN : 0 < ∑ s, n s) :
+    ∑ t, (n t / ∑ s, n s) * ∑ x, piB p L (bt t) x * (f x * misW p L n bt β x) = ∑ x, gam p L β x * f x :=
+  mis_core p L n bt β f fun x _ =>
+    (den_pos p L n bt hn hN hL (fun t => Zf_pos p L hp hp1 hL (bt t)) x).ne'
+
+/-- `f = 1`: the mean unnormalised weight is exactly `Z_β` -/
+theorem C01_mean_weight_is_Z (p L : Ω → ℝ) (n bt : T → ℝ) (β : ℝ)
+    (hp : ∀ x, 0 ≤ p x) (hp1 : ∃ x, 0 < p x) (hL : ∀ x, 0 < L x) (hn : ∀ t, 0 ≤ n t) (hN : 0 < ∑ s, n s) :
+    ∑ t, (n t / ∑ s, n s) * ∑ x, piB p L (bt t) x * misW p L n bt β x = Zf p L β := by
+  have := C01_mis_unbiased p L n bt β (fun _ => 1) hp hp1 hL hn hN
+  simpa [Zf] using this
+
+/-- hence the self-normalised estimator is a ratio of two exactly unbiased sums: numerator `Σ γ_β f`,
+    denominator `Z_β`, whose ratio is the posterior expectation `Σ π_β f` -/
+theorem C01_ratio_is_posterior_mean (p L : Ω → ℝ) (n bt : T → ℝ) (β : ℝ) (f : Ω → ℝ)
+    (hp : ∀ x, 0 ≤ p x) (hp1 : ∃ x, 0 < p x) (hL : ∀ x, 0 < L x) (hn : ∀ t, 0 ≤ n t) (hN : 0 < ∑ s, n s) :
+    (∑ t, (n t / ∑ s, n s) * ∑ x, piB p L (bt t) x * (f x * misW p L n bt β x)) /
+      (∑ t, (n t / ∑ s, n s) * ∑ x, piB p L (bt t) x * misW p L n bt β x) = ∑ x, piB p L β x * f x := by
+  rw [C01_mis_unbiased p L n bt β f hp hp1 hL hn hN, C01_mean_weight_is_Z p L n bt β hp hp1 hL hn hN,
+    Finset.sum_div]
+  refine Finset.sum_congr rfl fun x _ => ?_
+  rw [piB]; ring
+
+/-- the same identity for a likelihood that may VANISH on part of `Ω` (hard boundary inside the prior support),
+    provided one batch has `β_t = 0` -/
+theorem C01_mis_unbiased_boundary (p L : Ω → ℝ) (n bt : T → ℝ) (β : ℝ) (f : Ω → ℝ)
+    (hp : ∀ x, 0 ≤ p x) (hp1 : ∃ x, 0 < p x) (hL : ∀ x, 0 ≤ L x) (hn : ∀ t, 0 ≤ n t)
+    (t0 : T) (hb0 : bt t0 = 0) (hn0 : 0 < n t0) :
+    ∑ t, (n t / ∑ s, n s) * ∑ x, piB p L (bt t) x * (f x * misW p L n bt β x) = ∑ x, gam p L β x * f x :=
+  mis_core p L n bt β f fun x _ => (den_pos_of_beta_zero p L n bt hn hp hp1 hL t0 hb0 hn0 x).ne'
+
+/-- **support**: the positivity hypothesis of `C01_mis_identity` (`0 < Σ_s n_s q_s(x)` with `q_s = π_{β_s}`) holds
+    at every point of the prior's support as soon as one batch has `β = 0` — whatever the likelihood does there -/
+theorem C01_support (p L : Ω → ℝ) (n bt : T → ℝ) (hp : ∀ x, 0 ≤ p x) (hL : ∀ x, 0 ≤ L x) (hn : ∀ t, 0 ≤ n t)
+    (t0 : T) (hb0 : bt t0 = 0) (hn0 : 0 < n t0) (x : Ω) (hx : 0 < p x) :
+    0 < ∑ s, n s * piB p L (bt s) x := by
+  have hZ0 : 0 < Zf p L 0 := by
+    rw [Zf_zero]; exact Finset.sum_pos' (fun x _ => hp x) ⟨x, Finset.mem_univ _, hx⟩
+  apply Finset.sum_pos'
+  · intro s _
+    exact mul_nonneg (hn s) (div_nonneg (gam_nonneg p L hp hL _ x) (Zf_nonneg p L hp hL _))
+  · refine ⟨t0, Finset.mem_univ _, mul_pos hn0 ?_⟩
+    rw [piB, hb0, gam, Real.rpow_zero, mul_one]
+    exact div_pos hx hZ0
+
+/-- the identity through `C01_mis_identity` itself (strictly positive prior): same conclusion as
+    `C01_mis_unbiased_boundary`, showing that `C01_support` is exactly the hypothesis that identity needs -/
+theorem C01_mis_identity_applies (p L : Ω → ℝ) (n bt : T → ℝ) (β : ℝ) (f : Ω → ℝ)
+    (hp : ∀ x, 0 < p x) (hL : ∀ x, 0 ≤ L x) (hn : ∀ t, 0 ≤ n t) (t0 : T) (hb0 : bt t0 = 0) (hn0 : 0 < n t0) :
+    ∑ t, n t * ∑ x, piB p L (bt t) x * (f x * gam p L β x / ∑ s, n s * piB p L (bt s) x) = ∑ x, f x * gam p L β x :=
+  C01_mis_identity n (fun t => piB p L (bt t)) (gam p L β) f
+    fun x => C01_support p L n bt (fun x => (hp x).le) hL hn t0 hb0 hn0 x (hp x)
+
+end mis
+
+/-! ### the bridge to the code's log-weight formula (C04) -/
+
+/-- `exp (specRaw h β (log L x))` — C04's `β ℓ − log Σ_t (n_t/N) exp(β_t ℓ − z_t)`, which `C04_formula` proves of the
+    model of `compute_logw_and_logz` — is the linear-space weight `misW` when `ℓ = log L(x)` and every recorded
+    `z_t` is the exact `log Z_{β_t}`; batches are indexed by their position in the history -/
+theorem C01_weight_bridge {Ω : Type} [Fintype Ω] (p L : Ω → ℝ) (h : List (Batch ℝ)) (hwf : Props.C04.WF h)
+    (hz : ∀ b ∈ h, b.logz = Real.log (Zf p L b.beta)) (hZ : ∀ b ∈ h, 0 < Zf p L b.beta)
+    (β : ℝ) (x : Ω) (hL : 0 < L x) :
+    Real.exp (Props.C04.specRaw h β (Real.log (L x)))
+      = misW p L (fun t : Fin h.length => (h[t.1].logl.length : ℝ)) (fun t : Fin h.length => h[t.1].beta) β x := by
+  have hN : (nTotal h : ℝ) = ∑ s : Fin h.length, (h[s.1].logl.length : ℝ) := by
+    rw [Fin.sum_univ_fun_getElem h (fun b => (b.logl.length : ℝ))]
+    simp [nTotal, Nat.cast_list_sum, List.map_map, Function.comp_def]
+  have hmix : Props.C04.mix h (Real.log (L x))
+      = den p L (fun t : Fin h.length => (h[t.1].logl.length : ℝ)) (fun t : Fin h.length => h[t.1].beta) x := by
+    unfold Props.C04.mix den
+    rw [← hN, Fin.sum_univ_fun_getElem h
+      (fun b => (b.logl.length : ℝ) / (nTotal h : ℝ) * (L x ^ b.beta / Zf p L b.beta))]
+    congr 1
+    apply List.map_congr_left
+    intro b hb
+    rw [hz b hb, Real.exp_sub, Real.exp_log (hZ b hb), Real.rpow_def_of_pos hL, mul_comm b.beta]
+  unfold Props.C04.specRaw misW
+  rw [Real.exp_sub, Real.exp_log (Props.C04.mix_pos h hwf _), hmix, Real.rpow_def_of_pos hL, mul_comm]
+
+/-! ### the first batch of every run has β = 0 (any scalar type) -/
+
+theorem C01_first_batch_beta_zero {α : Type} [ScT α] (cfg : PCfg α) (t : Tape α) (s1 : PState α) (o : IterOut α)
+    (h : iterate cfg init t = some (s1, o)) :
+    o.beta = Sc.zero ∧ s1.hist = [⟨⟨Sc.zero, o.logz, s1.curL⟩, s1.curTags⟩] := by
+  have hb : o.beta = Sc.zero := by
+    simp only [iterate, init, batches, List.map_nil, List.isEmpty_nil, Model.Reweight.run, if_true] at h
+    by_cases he : eqv (Sc.zero : α) Sc.zero = true
+    · simp only [he, if_true, Option.map_eq_some_iff, Prod.mk.injEq] at h
+      obtain ⟨l, _, _, rfl⟩ := h
+      rfl
+    · simp only [he, Bool.false_eq_true, if_false, Option.bind_eq_some_iff, Option.map_eq_some_iff,
+        Prod.mk.injEq] at h
+      obtain ⟨idx, _, tg, _, l, _, _, rfl⟩ := h
+      rfl
+  obtain ⟨hh, _, _⟩ := Lemmas.PipelineShift.iterate_commit cfg init t s1 o h
+  refine ⟨hb, ?_⟩
+  rw [hh, hb]; rfl
+
+/-- … and it stays the first entry of the history for the rest of the run -/
+theorem C01_run_first_batch_beta_zero {α : Type} [ScT α] (cfg : PCfg α) (t : Tape α) (ts : List (Tape α))
+    (sf : PState α) (os : List (IterOut α)) (h : runIters cfg init (t :: ts) = some (sf, os)) :
+    ∃ pb rest, sf.hist = pb :: rest ∧ pb.b.beta = Sc.zero := by
+  simp only [runIters, Option.bind_eq_some_iff, Option.map_eq_some_iff] at h
+  obtain ⟨⟨s1, o⟩, hi, ⟨sf', os'⟩, hr, he⟩ := h
+  simp only [Prod.mk.injEq] at he
+  obtain ⟨rfl, rfl⟩ := he
+  obtain ⟨_, h1⟩ := C01_first_batch_beta_zero cfg t s1 o hi
+  obtain ⟨ext, h2, _, _⟩ := Lemmas.PipelineShift.runIters_hist cfg ts s1 sf' os' hr
+  exact ⟨_, ext, by rw [h2, h1]; rfl, rfl⟩
+
+/-! ### mutation and resampling, in the form the induction uses -/
+
+/-- a Markov kernel on a finite space with detailed balance w.r.t. `π` and stochastic rows leaves `π` invariant —
+    the finite-space form of what `C03_mh_detailed_balance` / `C03_*_interior` deliver for the two mutation kernels -/
+theorem C01_kernel_invariance {Ω : Type} [Fintype Ω] (π : Ω → ℝ) (K : Ω → Ω → ℝ)
+    (hdb : ∀ x y, π x * K x y = π y * K y x) (hrow : ∀ x, ∑ y, K x y = 1) :
+    Invariant π K := by
+  intro y
+  calc ∑ x, π x * K x y = ∑ x, π y * K y x := Finset.sum_congr rfl fun x _ => hdb x y
+    _ = π y * ∑ x, K y x := by rw [Finset.mul_sum]
+    _ = π y := by rw [hrow y, mul_one]
+
+/-- expected empirical measure after resampling = `n` × weighted empirical measure, given the expected-copies law
+    `E[count_j] = n·w_j` (algebraic form; the two instances below supply the law from C06) -/
+theorem C01_resample_unbiased {J : Type} [Fintype J] (n : ℝ) (w Ecount g : J → ℝ) (hE : ∀ j, Ecount j = n * w j) :
+    ∑ j, Ecount j * g j = n * ∑ j, w j * g j := by
+  rw [Finset.mul_sum]
+  exact Finset.sum_congr rfl fun j _ => by rw [hE j]; ring
+
+/-- systematic scheme: the mean over the offset `u0 ~ U[0,1)` of `Σ_j count_j(u0)·g_j` (taken term by term) is
+    `n·Σ_j w_j g_j` (re-export of `C06_syst_unbiased_integral`) -/
+theorem C01_resample_unbiased_syst (n : ℕ) (w : List ℝ) (hn : 1 ≤ n) (hw0 : ∀ x ∈ w, 0 ≤ x) (hw1 : w.sum = 1)
+    (g : Fin w.length → ℝ) :
+    ∑ j : Fin w.length, (∫ u in Set.Ico (0:ℝ) 1, Props.C06.copies n w j.1 u) * g j
+      = (n : ℝ) * ∑ j : Fin w.length, w[j.1] * g j :=
+  C01_resample_unbiased (n : ℝ) (fun j : Fin w.length => w[j.1]) _ g
+    fun j => Props.C06.C06_syst_unbiased_integral n w hn hw0 hw1 j.1 j.2
+
+/-- multinomial scheme: one draw lands on index `j` with probability `w_j/Σw`, so the expected value of `g` at the
+    drawn index is the weighted mean (re-export of `C06_mult_unbiased_integral`) -/
+theorem C01_resample_unbiased_mult (w : List ℝ) (hw0 : ∀ x ∈ w, 0 ≤ x) (hpos : 0 < w.sum) (g : Fin w.length → ℝ) :
+    ∑ j : Fin w.length,
+        (∫ u in Set.Ico (0:ℝ) 1, (if Model.Resample.multinomial w [u] = some [j.1] then (1:ℝ) else 0)) * g j
+      = 1 * ∑ j : Fin w.length, (w[j.1] / w.sum) * g j :=
+  C01_resample_unbiased 1 (fun j : Fin w.length => w[j.1] / w.sum) _ g
+    fun j => by rw [Props.C06.C06_mult_unbiased_integral w hw0 hpos j.1 j.2, one_mul]
+
+/-! ### the mean-field (infinite-particle) recursion -/
+
+section meanfield
+variable {Ω : Type} [Fintype Ω]
+
+/-- one iteration of the idealised algorithm from a history in which every batch has law `π_{β_t}` and recorded
+    normaliser `Z_{β_t}`: for ANY next β, the evidence functional `Σ_x m(x) w(x)` is exactly `Z_β`, the reweighted
+    pool law is exactly `π_β`, and after mutation with any `π_β`-invariant kernel the committed batch is again exact -/
+theorem C01_meanfield_step (p L : Ω → ℝ) (hp : ∀ x, 0 ≤ p x) (hp1 : ∃ x, 0 < p x) (hL : ∀ x, 0 < L x)
+    (h : List (MBatch Ω)) (hne : h ≠ []) (hex : ∀ b ∈ h, Exact p L b) (β : ℝ) (K : Ω → Ω → ℝ)
+    (hK : Invariant (piB p L β) K) (n : ℝ) (hn : 0 < n) :
+    mfZ L h β = Zf p L β ∧ mfReweighted L h β = piB p L β ∧ ∀ b ∈ mfStep L h β K n, Exact p L b :=
+  ⟨mfZ_exact p L hp hp1 hL h hne hex β, mfReweighted_exact p L hp hp1 hL h hne hex β,
+    mfStep_exact p L hp hp1 hL h hne hex β K hK n hn⟩
+
+/-- **fixed point of the mean-field pipeline**: by induction over the iterations, for any schedule of temperatures,
+    any `π_β`-invariant kernels and any batch sizes, every batch law stays exactly `π_{β_t}` and every recorded
+    normaliser exactly `Z_{β_t}` -/
+theorem C01_meanfield_fixed (p L : Ω → ℝ) (hp : ∀ x, 0 ≤ p x) (hp1 : ∃ x, 0 < p x) (hL : ∀ x, 0 < L x)
+    (h : List (MBatch Ω)) (hne : h ≠ []) (hex : ∀ b ∈ h, Exact p L b)
+    (steps : List (ℝ × (Ω → Ω → ℝ) × ℝ)) (hst : ∀ st ∈ steps, Invariant (piB p L st.1) st.2.1 ∧ 0 < st.2.2) :
+    ∀ b ∈ mfRun L h steps, Exact p L b :=
+  mfRun_exact p L hp hp1 hL steps h hne hex hst
+
+/-- the warm-up batch (prior draws, `β = 0`, normaliser = prior mass of the finite-likelihood region) is exact -/
+theorem C01_meanfield_start (p L : Ω → ℝ) (n : ℝ) (hn : 0 < n) :
+    ∀ b ∈ [(⟨n, 0, piB p L 0, Zf p L 0⟩ : MBatch Ω)], Exact p L b := by
+  intro b hb
+  simp only [List.mem_singleton] at hb
+  subst hb
+  exact ⟨hn, rfl, rfl⟩
+
+end meanfield
+
+/-! ### the real pipeline: one temperature per iteration, one batch per commit -/
+
+/-- the resampling call of `iterate`, given the weight vector -/
+noncomputable def resampled (cfg : PCfg ℝ) (t : Tape ℝ) (w : List ℝ) : Option (List Nat) :=
+  if cfg.syst then (match t.resU with | [u0] => Model.Resample.systematic cfg.rw.nPart w u0 | _ => none)
+  else Model.Resample.multinomial w t.resU
+
+/-- On a non-empty history everything an iteration does refers to the SAME β (the one it reports): the recorded ESS
+    and evidence are the pool's oracles at that β; in an annealing iteration the resampler receives the normalised
+    pool weights at that β, every accept/reject step runs at that β on the gathered records, and the batch is
+    committed with `(β, Z(β))`. -/
+theorem C01_pipeline_same_temperature (cfg : PCfg ℝ) (s : PState ℝ) (t : Tape ℝ) (s1 : PState ℝ) (o : IterOut ℝ)
+    (hne : s.hist ≠ []) (h : iterate cfg s t = some (s1, o)) :
+    o.ess = (oracleM (batches s.hist) o.beta).2.1 ∧ o.logzRw = oracleZ (batches s.hist) o.beta ∧
+    (o.beta ≠ 0 →
+      resampled cfg t (Model.Ess.normalise (oracleM (batches s.hist) o.beta).1) = some o.idx ∧
+      ∃ tg l, Model.Records.gather? (poolTags s.hist) o.idx = some tg ∧
+        Model.Records.gather? (flatLogl (batches s.hist)) o.idx = some l ∧
+        mcmcSteps o.beta t.steps tg l = (s1.curTags, s1.curL, o.masks) ∧
+        o.logz = oracleZ (batches s.hist) o.beta) := by
+  have hE : (batches s.hist).isEmpty = false := by
+    cases hs : s.hist with
+    | nil => exact absurd hs hne
+    | cons _ _ => rfl
+  obtain ⟨c1, c2, c3, _⟩ := Props.C05.C05_same_temperature cfg.rw (oracleM (batches s.hist))
+    (oracleZ (batches s.hist)) isFin s.beta
+  simp only [iterate, hE] at h
+  generalize Model.Reweight.run cfg.rw false (oracleM (batches s.hist)) (oracleZ (batches s.hist)) isFin s.beta
+    = r at h c1 c2 c3
+  by_cases hb : eqv r.beta Sc.zero = true
+  · have hb0 : r.beta = 0 := (Props.C05.eqv_real r.beta 0).mp (by simpa using hb)
+    simp only [hb, if_true, Option.map_eq_some_iff, Prod.mk.injEq] at h
+    obtain ⟨l, _, _, rfl⟩ := h
+    exact ⟨c2, c3, fun hn0 => absurd hb0 hn0⟩
+  · simp only [hb, Bool.false_eq_true, if_false, Option.bind_eq_some_iff, Option.map_eq_some_iff,
+      Prod.mk.injEq] at h
+    obtain ⟨idx, hidx, tg, htg, l, hl, rfl, rfl⟩ := h
+    refine ⟨c2, c3, fun _ => ⟨?_, tg, l, htg, hl, rfl, c3⟩⟩
+    rw [c1] at hidx
+    unfold resampled
+    simp only [returnedWeights] at hidx
+    by_cases hsy : cfg.syst = true
+    · simp only [hsy, if_true] at hidx ⊢
+      rcases hu : t.resU with _ | ⟨u0, _ | ⟨u1, us⟩⟩ <;> rw [hu] at hidx <;> exact hidx
+    · simp only [hsy, Bool.false_eq_true, if_false] at hidx ⊢
+      exact hidx
+
+/-- `iterate` appends exactly one batch — the current particles, with the β and evidence it reports — and leaves
+    every earlier batch untouched (any scalar type) -/
+theorem C01_commit_appends_one {α : Type} [ScT α] (cfg : PCfg α) (s : PState α) (t : Tape α) (s1 : PState α)
+    (o : IterOut α) (h : iterate cfg s t = some (s1, o)) :
+    s1.hist = s.hist ++ [⟨⟨o.beta, o.logz, s1.curL⟩, s1.curTags⟩] ∧ s1.beta = o.beta ∧ s1.logz = o.logz :=
+  Lemmas.PipelineShift.iterate_commit cfg s t s1 o h
+
+/-! ### non-vacuity: a two-point space, two batches of unequal size at β = 0 and β = 1/2 -/
+
+noncomputable def pEx : Fin 2 → ℝ := ![1/3, 2/3]
+noncomputable def LEx : Fin 2 → ℝ := ![1, 2]
+noncomputable def L0Ex : Fin 2 → ℝ := ![0, 2]      -- a likelihood that vanishes at one point
+noncomputable def nEx : Fin 2 → ℝ := ![2, 1]
+noncomputable def btEx : Fin 2 → ℝ := ![0, 1/2]
+
+theorem pEx_nonneg : ∀ x, 0 ≤ pEx x := by intro x; fin_cases x <;> simp [pEx]; norm_num
+theorem pEx_pos : ∀ x, 0 < pEx x := by intro x; fin_cases x <;> simp [pEx]
+theorem LEx_pos : ∀ x, 0 < LEx x := by intro x; fin_cases x <;> simp [LEx]
+theorem L0Ex_nonneg : ∀ x, 0 ≤ L0Ex x := by intro x; fin_cases x <;> simp [L0Ex]
+theorem nEx_nonneg : ∀ t, 0 ≤ nEx t := by intro x; fin_cases x <;> simp [nEx]
+theorem nEx_sum : 0 < ∑ s, nEx s := by simp [nEx, Fin.sum_univ_two]; norm_num
+
+example (f : Fin 2 → ℝ) :
+    ∑ t, (nEx t / ∑ s, nEx s) * ∑ x, piB pEx LEx (btEx t) x * (f x * misW pEx LEx nEx btEx 1 x)
+      = ∑ x, gam pEx LEx 1 x * f x :=
+  C01_mis_unbiased pEx LEx nEx btEx 1 f pEx_nonneg ⟨0, pEx_pos 0⟩ LEx_pos nEx_nonneg nEx_sum
+
+/-- the right-hand side is not trivial: `Z_1 = (1/3)·1 + (2/3)·2 = 5/3` -/
+example : Zf pEx LEx 1 = 5 / 3 := by
+  simp [Zf, gam, pEx, LEx, Fin.sum_univ_two]; norm_num
+example : ∑ t, (nEx t / ∑ s, nEx s) * ∑ x, piB pEx LEx (btEx t) x * misW pEx LEx nEx btEx 1 x = 5 / 3 := by
+  rw [C01_mean_weight_is_Z pEx LEx nEx btEx 1 pEx_nonneg ⟨0, pEx_pos 0⟩ LEx_pos nEx_nonneg nEx_sum]
+  simp [Zf, gam, pEx, LEx, Fin.sum_univ_two]; norm_num
+
+/-- hard boundary: likelihood 0 at the first point; the β = 0 batch (index 0, size 2) gives the support -/
+example (f : Fin 2 → ℝ) :
+    ∑ t, (nEx t / ∑ s, nEx s) * ∑ x, piB pEx L0Ex (btEx t) x * (f x * misW pEx L0Ex nEx btEx 1 x)
+      = ∑ x, gam pEx L0Ex 1 x * f x :=
+  C01_mis_unbiased_boundary pEx L0Ex nEx btEx 1 f pEx_nonneg ⟨0, pEx_pos 0⟩ L0Ex_nonneg nEx_nonneg 0
+    (by simp [btEx]) (by simp [nEx])
+example : 0 < ∑ s, nEx s * piB pEx L0Ex (btEx s) 0 :=
+  C01_support pEx L0Ex nEx btEx pEx_nonneg L0Ex_nonneg nEx_nonneg 0 (by simp [btEx]) (by simp [nEx]) 0 (pEx_pos 0)
+example (f : Fin 2 → ℝ) := C01_mis_identity_applies pEx L0Ex nEx btEx 1 f pEx_pos L0Ex_nonneg nEx_nonneg 0
+  (by simp [btEx]) (by simp [nEx])
+
+/-- a reversible two-state kernel: `π = (1/3, 2/3)`, `K = [[1/2, 1/2], [1/4, 3/4]]` -/
+noncomputable def KEx : Fin 2 → Fin 2 → ℝ := ![![1/2, 1/2], ![1/4, 3/4]]
+example : Invariant pEx KEx :=
+  C01_kernel_invariance pEx KEx
+    (by intro x y; fin_cases x <;> fin_cases y <;> simp [pEx, KEx] <;> norm_num)
+    (by intro x; fin_cases x <;> simp [KEx, Fin.sum_univ_two] <;> norm_num)
+
+example (g : Fin 3 → ℝ) :
+    ∑ j : Fin 3, (∫ u in Set.Ico (0:ℝ) 1, Props.C06.copies 4 [1/2, 1/4, 1/4] j.1 u) * g j
+      = ((4 : ℕ) : ℝ) * ∑ j : Fin 3, ([1/2, 1/4, 1/4] : List ℝ)[j.1] * g j :=
+  C01_resample_unbiased_syst 4 [1/2, 1/4, 1/4] (by norm_num)
+    (by intro x hx; simp at hx; rcases hx with rfl | rfl | rfl <;> norm_num) (by norm_num) g
+
+/-- mean-field run: start from the warm-up batch, go to β = 1/2 with the identity kernel, then to β = 1 with the
+    independence kernel `K x y = π_1 y`; every batch of the result is exact -/
+theorem piB_sum_one {Ω : Type} [Fintype Ω] (p L : Ω → ℝ) (b : ℝ) (hZ : Zf p L b ≠ 0) : ∑ x, piB p L b x = 1 := by
+  simp only [piB, ← Finset.sum_div]
+  exact div_self hZ
+
+theorem invariant_id {Ω : Type} [Fintype Ω] [DecidableEq Ω] (π : Ω → ℝ) :
+    Invariant π (fun x y => if x = y then 1 else 0) := by
+  intro y; simp
+
+theorem invariant_indep {Ω : Type} [Fintype Ω] (π : Ω → ℝ) (h1 : ∑ x, π x = 1) : Invariant π (fun _ y => π y) := by
+  intro y; rw [← Finset.sum_mul, h1, one_mul]
+
+example : ∀ b ∈ mfRun LEx [(⟨2, 0, piB pEx LEx 0, Zf pEx LEx 0⟩ : MBatch (Fin 2))]
+    [(1/2, fun x y => if x = y then 1 else 0, 2), (1, fun _ y => piB pEx LEx 1 y, 3)], Exact pEx LEx b :=
+  C01_meanfield_fixed pEx LEx pEx_nonneg ⟨0, pEx_pos 0⟩ LEx_pos _ (by simp)
+    (C01_meanfield_start pEx LEx 2 (by norm_num)) _ (by
+      intro st hst
+      simp only [List.mem_cons, List.not_mem_nil, or_false] at hst
+      rcases hst with rfl | rfl
+      · exact ⟨invariant_id _, by norm_num⟩
+      · exact ⟨invariant_indep _ (piB_sum_one pEx LEx 1
+          (Zf_pos pEx LEx pEx_nonneg ⟨0, pEx_pos 0⟩ LEx_pos 1).ne'), by norm_num⟩)
+
+/-- bridge on a concrete stored history whose recorded evidences are the exact `log Z_{β_t}` -/
+noncomputable def hEx : List (Batch ℝ) :=
+  [⟨0, Real.log (Zf pEx LEx 0), [0, Real.log 2]⟩, ⟨1/2, Real.log (Zf pEx LEx (1/2)), [Real.log 2]⟩]
+theorem wf_hEx : Props.C04.WF hEx := by
+  refine ⟨by simp [hEx], ?_⟩
+  intro b hb
+  simp only [hEx, List.mem_cons, List.not_mem_nil, or_false] at hb
+  rcases hb with rfl | rfl <;> simp
+example : Real.exp (Props.C04.specRaw hEx 1 (Real.log (LEx 1)))
+    = misW pEx LEx (fun t : Fin hEx.length => (hEx[t.1].logl.length : ℝ)) (fun t : Fin hEx.length => hEx[t.1].beta)
+        1 1 :=
+  C01_weight_bridge pEx LEx hEx wf_hEx
+    (by intro b hb; simp only [hEx, List.mem_cons, List.not_mem_nil, or_false] at hb; rcases hb with rfl | rfl <;> rfl)
+    (by intro b _; exact Zf_pos pEx LEx pEx_nonneg ⟨0, pEx_pos 0⟩ LEx_pos _) 1 1 (LEx_pos 1)
+
+/-! ### non-vacuity of the pipeline statements: the concrete two-iteration run of `Lemmas.PipelineShift.Ex` -/
+section pipelineEx
+open Lemmas.PipelineShift.Ex
+
+example : (0 : ℝ) = Sc.zero ∧ s1.hist = [⟨⟨Sc.zero, 0, s1.curL⟩, s1.curTags⟩] :=
+  C01_first_batch_beta_zero cfgEx t1 s1 _ it1
+example : ∃ pb rest, s2.hist = pb :: rest ∧ pb.b.beta = Sc.zero :=
+  C01_run_first_batch_beta_zero cfgEx t1 [t2] s2 _ run2
+/-- the annealing iteration of the example: β = 1 ≠ 0, so all clauses of the statement are exercised -/
+example : (2 : ℝ) = (oracleM (batches s1.hist) 1).2.1 ∧ z1 = oracleZ (batches s1.hist) 1 ∧
+    ((1 : ℝ) ≠ 0 →
+      resampled cfgEx t2 (Model.Ess.normalise (oracleM (batches s1.hist) 1).1) = some [0, 1] ∧
+      ∃ tg l, Model.Records.gather? (poolTags s1.hist) [0, 1] = some tg ∧
+        Model.Records.gather? (flatLogl (batches s1.hist)) [0, 1] = some l ∧
+        mcmcSteps 1 t2.steps tg l = (s2.curTags, s2.curL, [[true, false]]) ∧
+        z1 = oracleZ (batches s1.hist) 1) :=
+  C01_pipeline_same_temperature cfgEx s1 t2 s2 _ (by simp [s1]) it2
+example : s2.hist = s1.hist ++ [⟨⟨1, z1, s2.curL⟩, s2.curTags⟩] ∧ s2.beta = 1 ∧ s2.logz = z1 :=
+  C01_commit_appends_one cfgEx s1 t2 s2 _ it2
+end pipelineEx
 
 end Props.C01
